@@ -34,7 +34,7 @@ for t in chk.COVER:
         caps.setdefault(nm, []).append(int(cap) if cap else 1)
 for f in glob.glob(os.path.join(vlib.VERIF, 'generated', '*')):
     b = os.path.basename(f)
-    ok = False
+    ok = b == 'attacks.json'
     for nm, it in names.items():
         if b.startswith('design-%s-%s' % (nm, mc.item_key(it))) or any(b.startswith('cover-%s-%s' % (nm, mc.item_key(it, 'cover%s' % c))) for c in caps.get(nm, [])):
             ok = True
